@@ -87,9 +87,12 @@ def enc_ctx(kind, v, as_float=False):
     if as_float:
         # non-dyadic values: an in-place transformation of the caller's buffer that is 'undone' afterwards
         # (centering, scaling) does not round-trip exactly and shows in the byte-level snapshot
+        # the first row keeps its integer values (Python ints in the list encoding, the same numbers as float64 in
+        # the array encodings): a heterogeneous nested list must mean the same matrix as the equivalent array
         a = np.asarray(v, dtype=np.float64) * 0.3 + 0.1
+        a[0] = np.asarray(v[0], dtype=np.float64)
         if kind == "list":
-            return [[float(x) for x in r] for r in a]
+            return [[int(x) for x in v[0]]] + [[float(x) for x in r] for r in a[1:]]
         if kind == "nd_ro":
             a = np.ascontiguousarray(a)
             a.setflags(write=False)
